@@ -536,6 +536,11 @@ impl Drop for Driver {
         for entry in cqueue {
             match entry.user_data() {
                 Self::CANCEL | Self::NOTIFY => {}
+                // An intermediate completion of a multishot operation: the operation is
+                // still armed in the kernel, and several such entries may be queued for
+                // one key. It stays in `in_flight` and is freed once, after the ring is
+                // closed.
+                _ if more(entry.flags()) => {}
                 key => {
                     self.in_flight.remove(&(key as usize));
                     drop(unsafe { ErasedKey::from_raw(key as _) });
